@@ -310,6 +310,25 @@ def run(ctx):
                         if not some:
                             ok, why = False, "the rest of the conjunction is started although the left goal has no answer"
         ctx.ob("R4", "left-to-right(%s)" % nm, ok and n > 0, ctx.where(F), why or "left goal searched first (%d events)" % n)
+    # every answer of the left goal reaches the rest of the conjunction: after the head's search returned Some, the
+    # next thing the conjunction does is return it (nothing remains) or build and search the tail node — it never
+    # goes back to the head without having tried the tail for that answer
+    head = ("field", ("field", asn, "head_sn"), "Some.0")
+    ok, why, n = True, "", 0
+    for p in aps:
+        ev = [e for e in p.events if e["k"] == "call" and (e["callee"] in solver_fns or e["callee"] == M.path)]
+        for i, e in enumerate(ev):
+            if e["callee"] in solver_fns and strip(e["args"][0]) == head and outcome_of(p, e["result"]) == "Some":
+                n += 1
+                nxt = ev[i + 1] if i + 1 < len(ev) else None
+                returned = p.end == "return" and some_payload(p.ret) is not None and nxt is None
+                if nxt is not None and nxt["callee"] != M.path:
+                    ok, why = False, ("after the left goal answered (line %d) the conjunction goes on to %s without building and "
+                                      "searching the remaining goals for that answer" % (e["line"], nxt["callee"].split("::")[-1]))
+                if nxt is None and not returned:
+                    ok, why = False, "an answer of the left goal (line %d) is neither returned nor passed to the remaining goals" % e["line"]
+    ctx.ob("R4", "every-head-answer-reaches-tail", ok and n > 0, ctx.where(A), why or
+           "each of %d head answers is followed by the tail's construction and search, or returned when nothing remains" % n)
     ST = prog.one("Operator::split_head_tail")
     if ST is None:
         ctx.missing("R4", "split_head_tail")
